@@ -70,6 +70,7 @@ func (s *store) Create(key string, sizeBytes uint64) (*File, error) {
 		return newFile(key, memF, nil, s.disk, s.log), nil
 	}
 
+	verifPoint("c-create", key)
 	s.stats.Counter("fallback_to_disk").Inc(1)
 	diskF, err := s.disk.Create(key, sizeBytes)
 	if err != nil {
@@ -131,7 +132,9 @@ func (s *store) Delete(key string, scope storelib.BlobScope) error {
 		return s.disk.Scoped(scope).Delete(key)
 	}
 
+	verifPoint("c-delete1", key)
 	s.flusher.abort(key)
+	verifPoint("c-delete2", key)
 	err = s.disk.Delete(key)
 	if err != nil && !errors.Is(err, os.ErrNotExist) {
 		err = fmt.Errorf("disk store delete: %w", err)
@@ -210,10 +213,12 @@ func (s *store) MarkComplete(key string) error {
 		return s.disk.MarkComplete(key)
 	}
 
+	verifPoint("c-complete1", key)
 	err = s.mem.MarkComplete(key)
 	if err != nil {
 		return fmt.Errorf("mem store mark complete: %w", err)
 	}
+	verifPoint("c-complete2", key)
 	size, err := s.mem.Stat(key)
 	if err != nil {
 		return fmt.Errorf("mem store stat: %w", err)
@@ -237,10 +242,12 @@ func (s *store) SetMetadata(key string, md metadata.Metadata, scope storelib.Blo
 		return s.disk.Scoped(scope).SetMetadata(key, md)
 	}
 
+	verifPoint("c-setmd1", key)
 	err = s.mem.SetMetadata(key, md)
 	if err != nil {
 		return fmt.Errorf("mem store set metadata: %w", err)
 	}
+	verifPoint("c-setmd2", key)
 	s.flusher.markMetadataDirty(key, md.GetSuffix())
 	return nil
 }
@@ -274,10 +281,12 @@ func (s *store) DeleteMetadata(key string, mdSuffix string, scope storelib.BlobS
 		return s.disk.Scoped(scope).DeleteMetadata(key, mdSuffix)
 	}
 
+	verifPoint("c-delmd1", key)
 	err = s.mem.DeleteMetadata(key, mdSuffix)
 	if err != nil {
 		return fmt.Errorf("mem store delete metadata: %w", err)
 	}
+	verifPoint("c-delmd2", key)
 	s.flusher.markMetadataDirty(key, mdSuffix)
 	return nil
 }
